@@ -8,6 +8,7 @@ mod hints;
 mod pipeline;
 mod record;
 mod span;
+mod stdrun;
 mod trace;
 mod util;
 
@@ -31,6 +32,7 @@ fn main() {
         "asm-history" => asmhist::asm_history(a(2), a(3)),
         "ast-roundtrip" => astrt::ast_roundtrip(a(2), a(3)),
         "data-roundtrip" => astrt::data_roundtrip(a(2), a(3)),
+        "std-run" => stdrun::std_run(a(2), a(3)),
         "asm-rejects" => asmhist::asm_rejects(a(2), a(3)),
         "iter-walk" => trace::iter_walk(a(2), a(3)),
         other => {
